@@ -94,6 +94,61 @@ def unit_setitem_owns(tier=None, seed=None):
     return S.finish(replay=replay_c10)
 
 
+def unit_getitem_by_value(tier=None, seed=None):
+    """FitProperties.__getitem__ hands out mutable settings by value ("... or previously RETURNED object in place
+    and passes it again ... the change is noticed": what is handed out must not be the stored object, nor the object
+    of the module-level defaults)"""
+    S = Session("C10", "FitProperties.__getitem__", "nanite.fit:FitProperties.__getitem__")
+    st = {}
+    KEYS = ["params_initial", "preprocessing", "preprocessing_options", "range_x", "method_kws"]
+
+    def reach(obj):
+        out = [obj]
+        if isinstance(obj, sx.SDict):
+            for e in obj.d.values():
+                out += reach(e[1])
+        elif isinstance(obj, list):
+            for x in obj:
+                if isinstance(x, (list, sx.SDict, sx.Obj)):
+                    out += reach(x)
+        elif isinstance(obj, sx.Obj) and obj.map is not None:
+            out.append(obj.map)
+            for e in obj.map.d.values():
+                out += reach(e[1])
+        return out
+
+    def setup(I):
+        o, vals, pres, fpd, res = F.sym_fp(I, "old")
+        ki = I.choose([z3.Int("key_index") == i for i in range(len(KEYS))])
+        if ki >= len(KEYS):
+            raise sx.PathAbort()
+        key = KEYS[ki]
+        st.update(o=o, key=key, vals=vals)
+        return sx.Builtin("read_item", lambda I: I.getitem(o, key)), [], {}
+
+    def post(S, out):
+        I = S.I
+        key, o = st["key"], st["o"]
+        e = o.map.d.get(key)
+        if out.kind != "return":
+            # a missing key raises KeyError like any dictionary
+            S.ensure("missing_key_raises_KeyError", out.raises("KeyError"), case={"key": key})
+            return
+        stored = e[1] if e is not None and e[0] is not False else None
+        rv = out.value
+        mine = {id(x) for x in reach(rv) if isinstance(x, (list, sx.SDict, sx.Obj))}
+        theirs = {id(x) for x in reach(stored) if isinstance(x, (list, sx.SDict, sx.Obj))} if stored is not None else set()
+        S.ensure(f"hands_out_a_copy.{key}", not (mine & theirs), case={"key": key}, witness=key)
+        from .c03 import val_eq
+        eq = val_eq(I, rv, st["vals"][key].obj)
+        S.ensure(f"hands_out_the_stored_value.{key}", eq if isinstance(eq, bool) else V.bterm(eq), case={"key": key})
+        S.ensure(f"reading_changes_nothing.{key}", not any(id(m) in theirs or (isinstance(m, tuple) and id(m[0]) in theirs)
+                                                           for m in I.mutations), case={"key": key})
+
+    S.run(setup, post)
+    return S.finish(replay=replay_c10)
+
+
 def replay_c10(ob):
     import copy
     import numpy as np
@@ -112,6 +167,34 @@ def replay_c10(ob):
                 return {"confirmed": True, "input": {"method_kws": kws}, "observed": {"caller's dict afterwards": mine},
                         "required": "unchanged"}
         return {"confirmed": False}
+    if "FitProperties.__getitem__.hands_out_a_copy" in oid:
+        key = oid.rsplit(".", 1)[-1]
+        P = ["compute_tip_position", "correct_force_offset", "correct_tip_offset"]
+        import nanite.fit as nf
+        cur = IU._curve()
+        cur.fit_model(preprocessing=P, model_key="hertz_para")
+        got = cur.fit_properties[key]
+        before = copy.deepcopy(got)
+        # the caller edits what it was handed out ...
+        if key == "params_initial":
+            got["E"].set(value=50000, vary=False)
+        elif key == "range_x":
+            got[0] = -1e-6
+        elif key == "preprocessing":
+            got.append("correct_force_slope")
+        elif key == "preprocessing_options":
+            got["correct_tip_offset"] = {"method": "fit_constant_line"}
+        else:
+            got["max_nfev"] = 3
+        again = cur.fit_properties[key]
+        changed = (again != before) if key != "params_initial" else (again["E"].value != before["E"].value)
+        default_hit = key in ("range_x", "method_kws", "preprocessing", "preprocessing_options") \
+            and nf.FP_DEFAULT[key] not in ([], {}, [0, 0])
+        return {"confirmed": bool(changed or default_hit),
+                "input": f"fit_properties[{key!r}] edited in place by the caller after a fit",
+                "observed": {"stored setting changed without a reset": bool(changed),
+                             "module default now": repr(nf.FP_DEFAULT.get(key))[:80]},
+                "required": "the stored settings (and the module defaults) are not reachable through what is handed out"}
     if "FitProperties.__setitem__.owns" in oid:
         key = oid.rsplit(".", 1)[-1]
         P = ["compute_tip_position", "correct_force_offset", "correct_tip_offset"]
@@ -215,7 +298,7 @@ def unit_canaries(tier=None, seed=None):
 
 
 def units(tier):
-    us = [Unit("FitProperties.__setitem__", unit_setitem_owns)]
+    us = [Unit("FitProperties.__setitem__", unit_setitem_owns), Unit("FitProperties.__getitem__", unit_getitem_by_value)]
     us += FT.units_for("C10") + IU.units_for("C10")
     us += [Unit("residual", resid.unit_residual, prop="C10"), Unit("weights", resid.unit_weights, prop="C10"),
            Unit("model_direction_agnostic", resid.unit_mda, prop="C10", which="mda"),
